@@ -138,6 +138,19 @@ theorem string_literal_tokOK (s : Text) (h : s.head? = some 34) : C10.isFlush s 
     subst h
     exact ⟨isSubstr_head (by decide), by simp [setKw]⟩
 
+/-- no list-property key contains a double quote … -/
+theorem gen_listProps_unquoted : ProfileApi.listProps.all (fun p => !p.contains 34) = true := by decide +kernel
+
+/-- … hence a block under a variant other than "default" is never a list property (its path contains the quoted
+variant): there `base64;` is reported as a bare word and `prepend "x";` as an option, without decoding -/
+theorem variant_path_not_listProp {path : List Text} {v : Text} (hv : v ∈ path) (hq : 34 ∈ v) :
+    ProfileApi.listProps.contains (joinDot path) = false := by
+  have h := gen_listProps_unquoted
+  simp only [List.all_eq_true, Bool.not_eq_true', List.contains_eq_mem, decide_eq_false_iff_not] at h
+  simp only [List.contains_eq_mem, decide_eq_false_iff_not]
+  intro hm
+  exact h _ hm (joinDot_contains hq path hv)
+
 /-! ### the builder -/
 
 /-- Builder half, as far as it is proved.  For every builder call sequence whose tree passes the checker `derive`
